@@ -237,12 +237,12 @@ impl<'a, 'b> Gen<'a, 'b> {
                         let a = match which {
                             0 if target == "operation-noreturn" => AttrM::new("oneway", &[]),
                             1 => {
-                                const C: [&[&str]; 3] = [&["Args"], &["Return"], &["Args", "Return"]];
-                                AttrM::new("compress", C[self.pick(3)])
+                                const C: [&[&str]; 4] = [&["Args"], &["Return"], &["Args", "Return"], &["Return", "Args"]];
+                                AttrM::new("compress", C[self.pick(4)])
                             }
                             _ => {
-                                const C: [&[&str]; 3] = [&["Args"], &["Return"], &["Args", "Return"]];
-                                AttrM::new("slicedFormat", C[self.pick(3)])
+                                const C: [&[&str]; 4] = [&["Args"], &["Return"], &["Args", "Return"], &["Return", "Args"]];
+                                AttrM::new("slicedFormat", C[self.pick(4)])
                             }
                         };
                         if out.iter().any(|x| x.directive == a.directive) {
